@@ -181,6 +181,18 @@ def outOfRange (ps : List Path) : Bool :=
 /-- a tolerance that every distance between representable points satisfies -/
 def hugeTol : Rat := (2 : Rat) ^ 1100
 
+/-- every |coordinate| is below 2^1022, so every coordinate difference is a finite float and
+`distPointToSegment` measures it through its power-of-two rescaling (exact): the tolerance clause is
+then judged with the real tolerance also out of range (self-mutation N1: a rescale branch that
+forgets to scale the distance back was invisible while these cases were judged with `hugeTol`) -/
+def finiteDiffs (ps : List Path) : Bool :=
+  let lim : Rat := (2 : Rat) ^ 1022
+  ps.all fun l => l.all fun p =>
+    (if p.x < 0 then -p.x else p.x) < lim && (if p.y < 0 then -p.y else p.y) < lim
+
+/-- the tolerance the Spec is judged with for an out-of-range case -/
+def oorTol (ps : List Path) (tol : Rat) : Rat := if finiteDiffs ps then tol else hugeTol
+
 /-- swap x and y of every vertex (the in-place change the harness makes before its second call) -/
 def swapPt (p : Pt UInt64) : Pt UInt64 := ⟨p.y, p.x⟩
 def swapGeom : BGeom → BGeom
@@ -202,7 +214,8 @@ def judgePair (base : String) (tol : Rat) (tolF : Float) (g og : BGeom) (inputSp
       let w := if oor then ({} : Walk) else walkCurve tol tolF cv []
       -- `Simple` is quadratic in the number of vertices: not evaluated for long (smooth) inputs
       let simpleIn := !oor && lr.length ≤ 260 && Spec.Simple lr
-      let gp := simpleIn && lr.length ≤ 64 && Spec.GenPos lr
+      -- `GenPos` is cubic: up to 64 vertices everywhere, up to 140 for the class built for it (`detour`)
+      let gp := simpleIn && (lr.length ≤ 64 || (lr.length ≤ 140 && base.startsWith "detour")) && Spec.GenPos lr
       -- beyond general position: collinear vertices in their order along the line (`Spec.ColOrdered`,
       -- theorem `C13_simple_collinear_ordered`): straight runs, lattice walks that never re-enter a line
       let ord := simpleIn && !gp && lr.length ≤ 40 && Spec.ColOrdered lr
@@ -215,7 +228,7 @@ def judgePair (base : String) (tol : Rat) (tolF : Float) (g og : BGeom) (inputSp
         s!"{base}{kind}{dropped}{long}{bo}{if onGrid lr then "" else "-nongrid"}{if tie then "-neartie" else ""}"
       let simpleSpec := if gp && !Spec.Simple orr then some "simple-input-in-general-position-but-output-self-intersects"
         else if ord && !Spec.Simple orr then some "simple-input-with-collinear-vertices-in-order-but-output-self-intersects" else none
-      let sp := first [inputSpec, specCurve lr orr (if oor then hugeTol else tol), simpleSpec]
+      let sp := first [inputSpec, specCurve lr orr (if oor then oorTol [lr] tol else tol), simpleSpec]
       -- The walk iterates `Model.jBody` exactly as `Model.jLoop` does, so for three or more
       -- vertices its final `out` is the model's answer; `simplifyLS` itself is run as well on
       -- inputs of up to 150 vertices (and always for fewer than three) and must agree.
@@ -241,7 +254,7 @@ def judgePair (base : String) (tol : Rat) (tolF : Float) (g og : BGeom) (inputSp
       let oor := outOfRange mr
       let ws := if oor then [] else (ml.zip mr).map fun (b, r) => walkCurve tol tolF (mkCurve b r) []
       let tie := ws.any (·.tie) || oor
-      let tol := if oor then hugeTol else tol
+      let tol := if oor then oorTol mr tol else tol
       let cls := if oor then s!"{base}-outofrange" else s!"{base}-{mr.length}{if tie then "-neartie" else ""}"
       let memSpec := match members with
         | some (.multiLineString mm) => if mm == mo then none else some "members-not-simplified-independently"
@@ -259,7 +272,7 @@ def judgePair (base : String) (tol : Rat) (tolF : Float) (g og : BGeom) (inputSp
       let oor := outOfRange pr
       let ws := if oor then [] else (p.zip pr).map fun (b, r) => walkCurve tol tolF (mkCurve b r) pr
       let tie := ws.any (·.tie) || oor
-      let tol := if oor then hugeTol else tol
+      let tol := if oor then oorTol pr tol else tol
       let bo := if ws.any (·.backoffs > 0) then "-bo" else ""
       let cls := if oor then s!"{base}-outofrange" else s!"{base}-{min pr.length 4}{bo}{if tie then "-neartie" else ""}"
       let sp := first [inputSpec, zipSpec pr por tol]
@@ -275,7 +288,7 @@ def judgePair (base : String) (tol : Rat) (tolF : Float) (g og : BGeom) (inputSp
       let oor := mr.any outOfRange
       let ws := if oor then [] else (mp.zip mr).flatMap fun (pb, pr) => (pb.zip pr).map fun (b, r) => walkCurve tol tolF (mkCurve b r) pr
       let tie := ws.any (·.tie) || oor
-      let tol := if oor then hugeTol else tol
+      let tol := if oor then oorTol mr.flatten tol else tol
       let cls := if oor then s!"{base}-outofrange" else s!"{base}-{mr.length}{if tie then "-neartie" else ""}"
       let memSpec := match members with
         | some (.multiPolygon mm) => if mm == mpo then none else some "members-not-simplified-independently"
